@@ -151,20 +151,45 @@ fn tx_content(c: i64) -> [u8; 32] {
     [(c as u8).wrapping_add(0x40); 32]
 }
 
-/// {"owner":o,"content":c,"sig":"junk"|{"by":s,"content":c'}}
+fn out_content(c: i64) -> [u8; 32] {
+    [(c as u8).wrapping_add(0x70); 32]
+}
+fn tx_parents(v: &Value) -> Vec<bls::PublicKey> {
+    v.as_array().map(|l| l.iter().map(|p| owner_pk(p.as_i64().unwrap())).collect()).unwrap_or_default()
+}
+fn tx_outputs(v: &Value) -> Vec<(bls::PublicKey, [u8; 32])> {
+    v.as_array()
+        .map(|l| l.iter().map(|o| (owner_pk(o[0].as_i64().unwrap()), out_content(o[1].as_i64().unwrap()))).collect())
+        .unwrap_or_default()
+}
+
+/// {"owner":o,"content":c,"parents":[p..],"outputs":[[k,c]..],
+///  "sig":"junk"|{"by":s,"content":c', "owner":o'?, "parents":[..]?, "outputs":[..]?}}
+/// The signature is made over the fields named in "sig" (default: the transaction's own); the struct
+/// fields are then set to the transaction's own values -- i.e. fields are edited AFTER signing.
 pub fn tx(reg: &mut Registry, spec: &Value) -> Transaction {
     let o = owner_pk(spec["owner"].as_i64().unwrap());
     let c = tx_content(spec["content"].as_i64().unwrap());
+    let parents = tx_parents(&spec["parents"]);
+    let outputs = tx_outputs(&spec["outputs"]);
     let sig = match &spec["sig"] {
         Value::String(_) => owner_sk(77).sign(b"junk signature"),
-        s => owner_sk(s["by"].as_i64().unwrap()).sign(Transaction::bytes_to_sign(
-            &o,
-            &[],
-            &tx_content(s["content"].as_i64().unwrap()),
-            &[],
-        )),
+        s => {
+            let so = s.get("owner").and_then(|v| v.as_i64()).map(owner_pk).unwrap_or(o);
+            let sp = if s.get("parents").is_some() { tx_parents(&s["parents"]) } else { parents.clone() };
+            let souts = if s.get("outputs").is_some() { tx_outputs(&s["outputs"]) } else { outputs.clone() };
+            owner_sk(s["by"].as_i64().unwrap()).sign(Transaction::bytes_to_sign(
+                &so,
+                &sp,
+                &tx_content(s["content"].as_i64().unwrap()),
+                &souts,
+            ))
+        }
     };
-    let t = Transaction::new_with_signature(o, vec![], c, vec![], sig);
+    let mut t = Transaction::new_with_signature(o, vec![], c, vec![], sig);
+    // the fields are public: set them after the signature exists
+    t.parents = parents;
+    t.outputs = outputs;
     reg.atoms.insert(rmp_serde::to_vec(&t).expect("tx"), spec.clone());
     t
 }
